@@ -485,7 +485,26 @@ def canon(c):
             tuple(c.name), kinds, ex, bool(getattr(c, "copied", False)))
 
 
-def collect(it, name, deferred, **kw):
+def _renamed_above(path, ms, mt):
+    """Is there a second route to `path`: does the path or one of the
+    directory paths above it belong, in either tree, to an entry that is at
+    another path in the other tree? (The dirstate walks both trees by path:
+    a directory renamed onto or away from such a path drags the entries at
+    that path of the other tree into the walk a second time.)"""
+    tp, sp = tm.paths(mt), tm.paths(ms)
+    p = path
+    while True:
+        x, y = tp.get(p), sp.get(p)
+        if x is not None and x in ms and tm.path_of(ms, x) != p:
+            return True
+        if y is not None and y in mt and tm.path_of(mt, y) != p:
+            return True
+        if not p:
+            return False
+        p = os.path.dirname(p)
+
+
+def collect(it, name, deferred, models, **kw):
     """The canonical records of one comparison as a set - after making sure
     that it is one: no entry may be reported twice (a result is a set of
     changes; a filter that covers a path twice must not double them).
@@ -493,10 +512,13 @@ def collect(it, name, deferred, **kw):
     by different routes (its old and its new path, a renamed or replaced
     parent directory) is reported twice, identically, by every bzr
     implementation. Not excused: anything unfiltered, and a double report
-    that exists only because the filter names a path below another of its
-    elements (the redundant element must be pruned): decided by running the
-    comparison again without the redundant elements - still doubled means
-    two routes, gone means the redundancy caused it.
+    that can only come from the filter naming a path below another of its
+    elements (the redundant element must be pruned): the entry lies below
+    such an element and neither it nor a directory above it is at another
+    path in the source tree, so there is no second route to it. (Running
+    the comparison again without the redundant elements does not decide it:
+    which of two routes doubles depends on the order in which the dirstate
+    walks the search set.)
     git ids are paths: a kind change in place is a removal plus an addition
     of the same id."""
     recs = [canon(c) for c in it.iter_changes(**kw)]
@@ -514,15 +536,10 @@ def collect(it, name, deferred, **kw):
             moved = r[3] == (True, True) and r[1][0] != r[1][1]
             nested = any(selected(r[1][0], [f]) or selected(r[1][1], [f])
                          for f in inner)
-            if sf is not None and nested and not moved:
-                outer = [f for f in sf if f not in inner]
-                again = [canon(c) for c in it.iter_changes(
-                    **dict(kw, specific_files=outer))]
-                nested = sum(1 for q in again if (
-                    q[0] if q[0] is not None else
-                    ("unversioned", q[1][1])) == key) < 2
-                det["without_redundant_filter_elements"] = \
-                    "reported once" if nested else "still reported twice"
+            if sf is not None and nested and not moved and _renamed_above(
+                    r[1][1] if r[1][1] is not None else r[1][0],
+                    models[0], models[1]):
+                nested = False
             check(sf is not None and r == seen[key] and
                   (moved or not nested),
                   "C10/entry-reported-twice-" + impl, det)
@@ -688,7 +705,8 @@ def run(case, env):
         U = {}
         for name, it in impls:
             for iu in (False, True):
-                recs = collect(it, name, dups, include_unchanged=iu)
+                recs = collect(it, name, dups, (ms, mt),
+                               include_unchanged=iu)
                 U[name, iu] = recs
         n0 = impls[0][0]
         for name, it in impls[1:]:
@@ -746,7 +764,7 @@ def run(case, env):
             res = {}
             for name, it in impls:
                 try:
-                    res[name] = collect(it, name, dups, **kw)
+                    res[name] = collect(it, name, dups, (ms, mt), **kw)
                 except errors.PathsNotVersionedError:
                     res[name] = "refused"
             vals = list(res.values())
